@@ -22,4 +22,7 @@ type PS *S
 type LS []S
 type AR [2]T
 type CH chan T
+
+// Größe: an exported identifier with multi-byte letters
+type Größe int
 type A = T
